@@ -477,6 +477,12 @@ def plan(tier, seed):
             others.append(dict(kind='layout-mutant', how='alt', layout=lay, pos=pos))
         for lay in ([(1, 'ASP'), (2, 'ALA')], [(1, 'ALA'), (2, 'ASP'), (3, 'ALA')]):
             others.append(dict(kind='layout-mutant', how='model', layout=lay, pos=pos))
+    # alternate locations on one single atom (every atom of the first / a middle / the last residue in turn): every
+    # conformation and the average still hold every site exactly once
+    for pos in ('first', 'middle', 'last'):
+        for atom in ('N', 'CA', 'C', 'O', 'CB', 'CG', 'OD1', 'OD2') + (('OXT',) if pos == 'last' else ()):
+            for tags in (('A', 'B'), (' ', 'B'), ('A', 'B', 'C')):
+                others.append(dict(kind='alt-atom', pos=pos, atom=atom, tags=list(tags)))
     # two cysteines docked SG-SG: bridged below 2.5 A whatever the direction of the S-S vector and whatever is listed
     for d in ((2.03, 2.499, 2.6) if tier == 'quick' else (2.0, 2.03, 2.2, 2.4, 2.499, 2.501, 2.6, 3.0)):
         for orient in ('dock', '+x', '-x', '+y', '-y', '+z', '-z', 'diag'):
@@ -620,6 +626,34 @@ def run_case(case, ctx, acc):
                 continue
             if sumc[label(g)] != 1 and not (g['kind'] == 'C-' and 'Cterm-within-3-bonds-of-own-Nterm' in info.get(g['res'], ())):
                 acc.viols.append(Viol(case, 'census', 'summary-count/%s/point-mutant-%s' % (g['kind'], case['pos']), 'summary lists %r %d times' % (label(g), sumc[label(g)]),
+                                      inputs=dict(pdb=text)))
+    elif k == 'alt-atom':
+        from . import c08
+        text = gen.to_text(c08.build(dict(kind='alt-atom', tags=case['tags'], pos=case['pos'], atom=case['atom']), ctx.seed))
+        full = c08.build(dict(kind='alt', layout=[(' ', 'ASP')], pos=case['pos']), ctx.seed)
+        exp, info, st, tr = census(full.items)
+        mol = pk.run(text, (), write=True)
+        want = collections.Counter(key4(g) for g in exp)
+        acc.case(nontrivial_key=jhash(case), outcome='alt-atom:%d' % len(mol.conformation_names))
+        acc.extra['states'] += st
+        acc.extra['transitions'] += tr
+        if len(mol.conformation_names) != len(case['tags']):
+            acc.viols.append(Viol(case, 'census', 'conformations/alt-atom', 'conformations %r for alternate locations %r' % (
+                list(mol.conformation_names), case['tags']), inputs=dict(pdb=text)))
+        for cname in list(mol.conformation_names) + ['AVR']:
+            got = collections.Counter(key4(g) for g in observed(mol, cname))
+            where = 'avr' if cname == 'AVR' else 'conf'
+            for kk in (want - got):
+                acc.viols.append(Viol(case, 'census', '%s-missing/%s/alt-atom-%s' % (where, kk[3], case['pos']), 'expected %s in %s' % (kk, cname), inputs=dict(pdb=text)))
+            for kk in (got - want):
+                acc.viols.append(Viol(case, 'census', '%s-spurious/%s/alt-atom-%s' % (where, kk[3], case['pos']), '%s listed %d times in %s' % (kk, got[kk], cname),
+                                      inputs=dict(pdb=text)))
+        sumc = collections.Counter(r['label'] for r in pk.parse_pka(mol._pka_text)['summary'] if not r['ltype'])
+        for g in exp:
+            if g['kind'] == 'ASP' and 'sidechain-within-3-bonds-of-own-Nterm' in info.get(g['res'], ()):
+                continue
+            if sumc[label(g)] != 1 and not (g['kind'] == 'C-' and 'Cterm-within-3-bonds-of-own-Nterm' in info.get(g['res'], ())):
+                acc.viols.append(Viol(case, 'census', 'summary-count/%s/alt-atom-%s' % (g['kind'], case['pos']), 'summary lists %r %d times' % (label(g), sumc[label(g)]),
                                       inputs=dict(pdb=text)))
     elif k == 'cfg-table':
         cfg_table(case, acc)
